@@ -658,6 +658,108 @@ func c05Flatten(c *Check, ic *importClosure) {
 			}
 		}
 		c.Okf("FLATTEN-ORDER", key+"|map only indexed by key", p.pos(u.Pos()), "%d keyed accesses, no range over the map", len(ic.mapAccesses(u)))
+		lookupRules := func(ap *ssa.Call) {
+			// the appended element derives from the looked-up entry, and the loop ranges over that entry's imports
+			var lkp ssa.Value
+			for _, a := range ic.mapAccesses(u) {
+				if l, ok := a.(*ssa.Lookup); ok {
+					lkp = l
+				}
+				if cl, ok := a.(*ssa.Call); ok && cl.Call.StaticCallee() != nil && ic.accessors[cl.Call.StaticCallee()] {
+					lkp = cl // (entry, found) from the locked accessor
+				}
+			}
+			if lkp != nil {
+				okA := derives(ap.Call.Args[1], func(v ssa.Value) bool { return v == lkp }, nil)
+				c.Cond(okA, "FLATTEN-ORDER", key+"|appends the looked-up file", p.pos(ap.Pos()), "appended element comes from the entry found under the canonical key", "appended element is not the entry found under the key")
+				// found-guard: append only on found==true
+				guard := false
+				for _, r := range *lkp.Referrers() {
+					if ex, ok := r.(*ssa.Extract); ok && ex.Index == 1 {
+						for _, br := range branchesOn(ex) {
+							if edgeDominates(br.If.Block(), br.TrueSucc, ap.Block()) {
+								guard = true
+							}
+						}
+					}
+				}
+				c.Cond(guard, "FLATTEN-ORDER", key+"|missing entry skipped", p.pos(ap.Pos()), "append is guarded by the comma-ok result of the look-up", "entry used without checking it was found (nil dereference for depth-limited imports)")
+			}
+		}
+		memberRule := func(ap *ssa.Call) {
+			// (each once) membership test before append: a comparison of two canonical
+			// keys whose true edge returns, located in a loop that dominates the append
+			member := false
+			eachInstr(u, func(b *ssa.BasicBlock, i ssa.Instruction) {
+				bin, ok := i.(*ssa.BinOp)
+				if !ok || bin.Op != token.EQL {
+					return
+				}
+				isCanon := func(v ssa.Value) bool {
+					call, ok := v.(*ssa.Call)
+					return ok && staticCallee(call) == ic.canon
+				}
+				if !isCanon(bin.X) || !isCanon(bin.Y) {
+					return
+				}
+				// one side must be computed from an element of the *whole* output
+				// list: list[i] with list loaded directly from the pointer parameter
+				// (no re-slicing), i a forward induction variable bounded by len(list)
+				whole := false
+				for _, side := range []ssa.Value{bin.X, bin.Y} {
+					call := side.(*ssa.Call)
+					derives(call.Call.Args[0], func(v ssa.Value) bool {
+						ia, ok := v.(*ssa.IndexAddr)
+						if !ok {
+							return false
+						}
+						ld, ok := ia.X.(*ssa.UnOp)
+						if !ok || ld.Op != token.MUL {
+							return false
+						}
+						if _, isParam := unspill(ld.X).(*ssa.Parameter); !isParam {
+							return false
+						}
+						if fwd, _ := inductionForward(ia.Index); !fwd {
+							return false
+						}
+						// bound: idx < len(list)
+						bounded := false
+						for _, r := range *ia.Index.Referrers() {
+							if cmp, ok := r.(*ssa.BinOp); ok && cmp.Op == token.LSS {
+								if lc, ok := cmp.Y.(*ssa.Call); ok {
+									if bi, ok := lc.Call.Value.(*ssa.Builtin); ok && bi.Name() == "len" && lc.Call.Args[0] == ssa.Value(ld) {
+										bounded = true
+									}
+								}
+							}
+						}
+						if bounded {
+							whole = true
+						}
+						return bounded
+					}, nil)
+				}
+				if !whole {
+					return
+				}
+				for _, br := range branchesOn(bin) {
+					t := br.TrueSucc
+					if _, isRet := t.Instrs[len(t.Instrs)-1].(*ssa.Return); isRet && len(t.Instrs) == 1 {
+						// the loop header dominates the append block and append is reached only via loop exit
+						if br.If.Block().Dominates(ap.Block()) || loopHeaderOf(br.If.Block()).Dominates(ap.Block()) {
+							member = true
+						}
+					}
+				}
+			})
+			if !member {
+				member = memberByHelper(ic, u, ap)
+			}
+			c.Cond(member, "EACH-ONCE", key+"|membership test before append", p.pos(ap.Pos()),
+				"flatten returns early when the canonical key of the file is already in the list (each file once; cycles end)",
+				"no early return on an already-listed canonical key precedes the append: a file reached twice is merged twice and an import cycle recurses forever")
+		}
 		// recursive calls
 		var recCalls []*ssa.Call
 		eachCall(u, func(cl ssa.CallInstruction) {
@@ -696,6 +798,21 @@ func c05Flatten(c *Check, ic *importClosure) {
 			})
 			if fifo != nil {
 				c.Flagf("FLATTEN-ORDER", key+"|depth-first order", p.pos(fifo.Pos()), "the flatten keeps a first-in-first-out work list (front removed here, imports appended at the back): files are ordered breadth-first, so declarations of a nested import come after those of a later sibling import")
+			} else if lf := findLifo(u); lf != nil && lf.out != nil {
+				// A stack: the entry taken is the one pushed last. Depth-first
+				// pre-order needs the file appended before its imports are pushed
+				// and the imports pushed last-to-first, so that the first import is
+				// on top.
+				for _, push := range lf.pushes {
+					c.Cond(instrDominates(lf.out, push), "FLATTEN-ORDER", key+"|self before imports", p.pos(push.Pos()),
+						"a file is appended before its imports are put on the stack (pre-order)",
+						"imports are put on the stack before the importing file is appended: flatten order is not the documented pre-order")
+					rev, why := pushedInReverse(push)
+					c.Cond(rev, "FLATTEN-ORDER", key+"|imports visited in source order", p.pos(push.Pos()),
+						"imports are pushed from the last to the first, so the stack hands them out in source order", why)
+				}
+				lookupRules(lf.out)
+				memberRule(lf.out)
 			} else {
 				c.Undecidedf("FLATTEN-ORDER", key+"|recursion", p.pos(u.Pos()), "flatten is neither recursive nor a recognisable work-list loop: the ordering rule cannot be evaluated")
 			}
@@ -723,102 +840,9 @@ func c05Flatten(c *Check, ic *importClosure) {
 			fwd, why := forwardIndexed(rc)
 			c.Cond(fwd, "FLATTEN-ORDER", key+"|imports visited in source order", p.pos(rc.Pos()),
 				"recursive visit walks the import slice with an index that starts at the front and increases by one", why)
-			// the appended element derives from the looked-up entry, and the loop ranges over that entry's imports
-			var lkp ssa.Value
-			for _, a := range ic.mapAccesses(u) {
-				if l, ok := a.(*ssa.Lookup); ok {
-					lkp = l
-				}
-				if cl, ok := a.(*ssa.Call); ok && cl.Call.StaticCallee() != nil && ic.accessors[cl.Call.StaticCallee()] {
-					lkp = cl // (entry, found) from the locked accessor
-				}
-			}
-			if lkp != nil {
-				okA := derives(ap.Call.Args[1], func(v ssa.Value) bool { return v == lkp }, nil)
-				c.Cond(okA, "FLATTEN-ORDER", key+"|appends the looked-up file", p.pos(ap.Pos()), "appended element comes from the entry found under the canonical key", "appended element is not the entry found under the key")
-				// found-guard: append only on found==true
-				guard := false
-				for _, r := range *lkp.Referrers() {
-					if ex, ok := r.(*ssa.Extract); ok && ex.Index == 1 {
-						for _, br := range branchesOn(ex) {
-							if edgeDominates(br.If.Block(), br.TrueSucc, ap.Block()) {
-								guard = true
-							}
-						}
-					}
-				}
-				c.Cond(guard, "FLATTEN-ORDER", key+"|missing entry skipped", p.pos(ap.Pos()), "append is guarded by the comma-ok result of the look-up", "entry used without checking it was found (nil dereference for depth-limited imports)")
-			}
+			lookupRules(ap)
 		}
-		// (each once) membership test before append: a comparison of two canonical
-		// keys whose true edge returns, located in a loop that dominates the append
-		member := false
-		eachInstr(u, func(b *ssa.BasicBlock, i ssa.Instruction) {
-			bin, ok := i.(*ssa.BinOp)
-			if !ok || bin.Op != token.EQL {
-				return
-			}
-			isCanon := func(v ssa.Value) bool {
-				call, ok := v.(*ssa.Call)
-				return ok && staticCallee(call) == ic.canon
-			}
-			if !isCanon(bin.X) || !isCanon(bin.Y) {
-				return
-			}
-			// one side must be computed from an element of the *whole* output
-			// list: list[i] with list loaded directly from the pointer parameter
-			// (no re-slicing), i a forward induction variable bounded by len(list)
-			whole := false
-			for _, side := range []ssa.Value{bin.X, bin.Y} {
-				call := side.(*ssa.Call)
-				derives(call.Call.Args[0], func(v ssa.Value) bool {
-					ia, ok := v.(*ssa.IndexAddr)
-					if !ok {
-						return false
-					}
-					ld, ok := ia.X.(*ssa.UnOp)
-					if !ok || ld.Op != token.MUL {
-						return false
-					}
-					if _, isParam := unspill(ld.X).(*ssa.Parameter); !isParam {
-						return false
-					}
-					if fwd, _ := inductionForward(ia.Index); !fwd {
-						return false
-					}
-					// bound: idx < len(list)
-					bounded := false
-					for _, r := range *ia.Index.Referrers() {
-						if cmp, ok := r.(*ssa.BinOp); ok && cmp.Op == token.LSS {
-							if lc, ok := cmp.Y.(*ssa.Call); ok {
-								if bi, ok := lc.Call.Value.(*ssa.Builtin); ok && bi.Name() == "len" && lc.Call.Args[0] == ssa.Value(ld) {
-									bounded = true
-								}
-							}
-						}
-					}
-					if bounded {
-						whole = true
-					}
-					return bounded
-				}, nil)
-			}
-			if !whole {
-				return
-			}
-			for _, br := range branchesOn(bin) {
-				t := br.TrueSucc
-				if _, isRet := t.Instrs[len(t.Instrs)-1].(*ssa.Return); isRet && len(t.Instrs) == 1 {
-					// the loop header dominates the append block and append is reached only via loop exit
-					if br.If.Block().Dominates(ap.Block()) || loopHeaderOf(br.If.Block()).Dominates(ap.Block()) {
-						member = true
-					}
-				}
-			}
-		})
-		c.Cond(member, "EACH-ONCE", key+"|membership test before append", p.pos(ap.Pos()),
-			"flatten returns early when the canonical key of the file is already in the list (each file once; cycles end)",
-			"no early return on an already-listed canonical key precedes the append: a file reached twice is merged twice and an import cycle recurses forever")
+		memberRule(ap)
 	}
 }
 
@@ -1631,4 +1655,245 @@ func c05PublicationViaHelper(c *Check, ic *importClosure, claimer *ssa.Function,
 	walk(entry, nil)
 	c.Counts["post_publication_stores"] = len(after)
 	c.Counts["claimed_branch_reads"] = nReads
+}
+
+// memberByHelper: the each-once test done by a predicate helper —
+// `if listed(*list, key) { return / continue }` — where the helper walks the
+// whole list it is given from the front, compares the canonical key of each
+// element with the key it is given and answers true on the first match, false
+// at the end; the caller hands it the whole output list and a canonical key, and
+// the append cannot be reached on the outcome true.
+func memberByHelper(ic *importClosure, u *ssa.Function, ap *ssa.Call) bool {
+	isCanon := func(v ssa.Value) bool {
+		call, ok := v.(*ssa.Call)
+		return ok && staticCallee(call) == ic.canon
+	}
+	found := false
+	eachInstr(u, func(_ *ssa.BasicBlock, i ssa.Instruction) {
+		call, ok := i.(*ssa.Call)
+		if !ok || found {
+			return
+		}
+		h := staticCallee(call)
+		if h == nil || !isRepoFn(h) || len(h.Blocks) == 0 || len(h.Blocks) > 10 || h.Signature.Results().Len() != 1 || !isBoolType(h.Signature.Results().At(0).Type()) {
+			return
+		}
+		// arguments: the whole output list (loaded from the pointer parameter) and a canonical key
+		listIdx, keyIdx := -1, -1
+		for k, a := range call.Call.Args {
+			if ld, ok := a.(*ssa.UnOp); ok && ld.Op == token.MUL {
+				if _, isParam := unspill(ld.X).(*ssa.Parameter); isParam {
+					if st, ok := storedThrough(ap); ok && unspill(st) == unspill(ld.X) {
+						listIdx = k
+					}
+				}
+			}
+			if isCanon(a) {
+				keyIdx = k
+			}
+		}
+		if listIdx < 0 || keyIdx < 0 || listIdx >= len(h.Params) || keyIdx >= len(h.Params) {
+			return
+		}
+		// inside: canon(list[i]…) == key, i forward and bounded by len(list); true edge returns true; every other return is false
+		okCmp := false
+		eachInstr(h, func(_ *ssa.BasicBlock, j ssa.Instruction) {
+			bin, ok := j.(*ssa.BinOp)
+			if !ok || bin.Op != token.EQL {
+				return
+			}
+			var other ssa.Value
+			switch {
+			case bin.X == ssa.Value(h.Params[keyIdx]):
+				other = bin.Y
+			case bin.Y == ssa.Value(h.Params[keyIdx]):
+				other = bin.X
+			default:
+				return
+			}
+			oc, isCall := other.(*ssa.Call)
+			if !isCall || staticCallee(oc) != ic.canon {
+				return
+			}
+			whole := derives(oc.Call.Args[0], func(v ssa.Value) bool {
+				ia, ok := v.(*ssa.IndexAddr)
+				if !ok || ia.X != ssa.Value(h.Params[listIdx]) {
+					return false
+				}
+				if fwd, _ := inductionForward(ia.Index); !fwd {
+					return false
+				}
+				for _, r := range *ia.Index.Referrers() {
+					if cmp, ok := r.(*ssa.BinOp); ok && cmp.Op == token.LSS {
+						if lc, ok := cmp.Y.(*ssa.Call); ok {
+							if bi, ok := lc.Call.Value.(*ssa.Builtin); ok && bi.Name() == "len" && lc.Call.Args[0] == ssa.Value(h.Params[listIdx]) {
+								return true
+							}
+						}
+					}
+				}
+				return false
+			}, nil)
+			if !whole {
+				return
+			}
+			for _, br := range branchesOn(bin) {
+				t := br.TrueSucc
+				if ret, ok := t.Instrs[len(t.Instrs)-1].(*ssa.Return); ok && len(t.Instrs) == 1 {
+					if k, ok := retVal(ret, 0).(*ssa.Const); ok && k.Value != nil && k.Value.String() == "true" {
+						okCmp = true
+					}
+				}
+			}
+		})
+		if !okCmp {
+			return
+		}
+		nTrue := 0
+		constOnly := true
+		for _, b := range h.Blocks {
+			if ret, ok := b.Instrs[len(b.Instrs)-1].(*ssa.Return); ok && b != h.Recover {
+				k, ok := retVal(ret, 0).(*ssa.Const)
+				if !ok || k.Value == nil {
+					constOnly = false
+				} else if k.Value.String() == "true" {
+					nTrue++
+				}
+			}
+		}
+		if !constOnly || nTrue != 1 {
+			return
+		}
+		// at the caller: the append is behind the outcome false
+		for _, br := range branchesOn(call) {
+			if br.If.Block().Dominates(ap.Block()) && !blockReaches(br.TrueSucc, ap.Block(), br.If.Block()) && br.TrueSucc != ap.Block() {
+				found = true
+			}
+		}
+	})
+	return found
+}
+
+// storedThrough: the address the result of an append is stored to.
+func storedThrough(ap *ssa.Call) (ssa.Value, bool) {
+	if ap.Referrers() == nil {
+		return nil, false
+	}
+	for _, r := range *ap.Referrers() {
+		if st, ok := r.(*ssa.Store); ok && st.Val == ssa.Value(ap) {
+			return st.Addr, true
+		}
+	}
+	return nil, false
+}
+
+// lifoList: an explicit stack in a flatten loop — a slice cut back to
+// len-1 on every round (the entry taken is the last) and grown by append.
+type lifoList struct {
+	pop    *ssa.Slice
+	pushes []*ssa.Call
+	out    *ssa.Call // the append to the output list (stored through a pointer parameter)
+}
+
+func isLenMinus1(v, of ssa.Value) bool {
+	b, ok := v.(*ssa.BinOp)
+	if !ok || b.Op != token.SUB {
+		return false
+	}
+	if k, isK := constInt(b.Y); !isK || k != 1 {
+		return false
+	}
+	lc, ok := b.X.(*ssa.Call)
+	if !ok {
+		return false
+	}
+	bi, ok := lc.Call.Value.(*ssa.Builtin)
+	return ok && bi.Name() == "len" && (of == nil || lc.Call.Args[0] == of)
+}
+
+func findLifo(u *ssa.Function) *lifoList {
+	var lf *lifoList
+	eachInstr(u, func(_ *ssa.BasicBlock, i ssa.Instruction) {
+		sl, ok := i.(*ssa.Slice)
+		if !ok || sl.Low != nil || sl.High == nil || !isLenMinus1(sl.High, sl.X) {
+			return
+		}
+		if _, isPhi := sl.X.(*ssa.Phi); !isPhi {
+			return
+		}
+		lf = &lifoList{pop: sl}
+	})
+	if lf == nil {
+		return nil
+	}
+	eachInstr(u, func(_ *ssa.BasicBlock, i ssa.Instruction) {
+		call, ok := i.(*ssa.Call)
+		if !ok {
+			return
+		}
+		if b, ok := call.Call.Value.(*ssa.Builtin); !ok || b.Name() != "append" {
+			return
+		}
+		if addr, ok := storedThrough(call); ok {
+			if prm, isParam := unspill(addr).(*ssa.Parameter); isParam {
+				if _, isPtr := prm.Type().Underlying().(*types.Pointer); isPtr {
+					lf.out = call
+					return
+				}
+			}
+		}
+		if types.Identical(call.Type(), lf.pop.Type()) {
+			lf.pushes = append(lf.pushes, call)
+		}
+	})
+	if len(lf.pushes) == 0 {
+		return nil
+	}
+	return lf
+}
+
+// pushedInReverse: the element pushed comes from slice[idx] with idx an
+// induction variable that starts at len(slice)-1 and steps by -1.
+func pushedInReverse(push *ssa.Call) (bool, string) {
+	var ia *ssa.IndexAddr
+	if len(push.Call.Args) < 2 {
+		return false, "push has no element"
+	}
+	derives(push.Call.Args[1], func(v ssa.Value) bool {
+		if x, ok := v.(*ssa.IndexAddr); ok {
+			if _, isArr := x.X.Type().Underlying().(*types.Pointer); !isArr { // not the varargs array
+				ia = x
+				return true
+			}
+		}
+		return false
+	}, nil)
+	if ia == nil {
+		return false, "the pushed element does not come from an indexed element of the import slice"
+	}
+	if fwd, _ := inductionForward(ia.Index); fwd {
+		return false, "imports are pushed first-to-last on a stack: the last import is taken first, so the files come out in reverse source order"
+	}
+	phi, ok := ia.Index.(*ssa.Phi)
+	if !ok {
+		return false, "index of the pushed import is not a simple induction variable"
+	}
+	sawInit, sawStep := false, false
+	for _, e := range phi.Edges {
+		if isLenMinus1(e, nil) {
+			sawInit = true
+			continue
+		}
+		if b, ok := e.(*ssa.BinOp); ok && b.X == ssa.Value(phi) {
+			if k, ok := constInt(b.Y); ok && ((b.Op == token.SUB && k == 1) || (b.Op == token.ADD && k == -1)) {
+				sawStep = true
+				continue
+			}
+		}
+		return false, "the loop that pushes the imports does not run from the last import to the first by one"
+	}
+	if sawInit && sawStep {
+		return true, ""
+	}
+	return false, "the loop that pushes the imports does not run from the last import to the first by one"
 }
